@@ -1,32 +1,56 @@
 //! Entry points for the libFuzzer targets in /verif/fuzz (and the seed corpus writer).
 //!
 //! Every target splits its input into a few control bytes (protocol list, role, chunking script,
-//! codec limit) and a raw tail, and runs the *same* oracle as the proptest sub-check. A violation
-//! panics with the signature (libFuzzer then stores the input as a crash artifact), unless the
-//! signature is listed with status `known` in known_findings.json (counted, not reported).
+//! codec limit) and a raw tail, and runs the *same* oracle as the proptest sub-check. The entry
+//! points return `Ok(nontrivial)` / `Err((signature, detail))`; `vcore::fuzz::fuzz_main` turns an
+//! `Err` into a panic inside libFuzzer (the input becomes a crash artifact) unless the signature is
+//! listed with status `known` in known_findings.json, and `Ctx::fuzz` runs the same functions
+//! in-process on the committed seeds, on proptest-mutated seeds and on replay files.
 
 use crate::c14::name;
 use crate::c15::{self, Role};
 use crate::c25::{self, Chunking};
 use crate::c57;
-use serde_json::Value;
-use std::sync::OnceLock;
+use crate::msref::End;
 use vcore::simio::{Script, Step};
+pub use vcore::fuzz::fuzz_main;
+use vcore::{FuzzTarget, FuzzVerdict};
 
-fn known() -> &'static Vec<String> {
-    static K: OnceLock<Vec<String>> = OnceLock::new();
-    K.get_or_init(|| {
-        let root = std::env::var("VERIF_ROOT").unwrap_or_else(|_| "/verif".into());
-        let v: Vec<Value> = std::fs::read(format!("{root}/known_findings.json")).ok().and_then(|b| serde_json::from_slice(&b).ok()).unwrap_or_default();
-        v.iter().filter(|e| e["status"] == "known").filter_map(|e| e["signature"].as_str().map(String::from)).collect()
-    })
-}
+pub const MS_LISTENER: FuzzTarget = FuzzTarget {
+    name: "ms_listener",
+    entry: ms_listener,
+    about: "input = [supported-protocol bitmask][4 read-script bytes][incoming byte stream, then EOF]; oracle = C15 black-box oracle (listener_select_proto vs reference listener: outcome, error kind, bytes sent, rest of stream; no panic, no stall) + Message::decode vs reference on the first frame body; non-trivial = the conversation got beyond the header (a proposal was answered or a malformed message was classified)",
+};
+pub const MS_DIALER: FuzzTarget = FuzzTarget {
+    name: "ms_dialer",
+    entry: ms_dialer,
+    about: "input = [bit7 V1Lazy, bits0-5 proposed protocols][order][4 read-script bytes][incoming byte stream, then EOF]; oracle = C15 black-box oracle (dialer_select_proto V1/V1Lazy vs reference dialer) + Message::decode vs reference on the stream; non-trivial = the conversation got beyond the header",
+};
+pub const MPLEX_CODEC: FuzzTarget = FuzzTarget {
+    name: "mplex_codec",
+    entry: mplex_codec,
+    about: "input = [4 chunking bytes][bytes]; oracle = C25 arbitrary-bytes oracle (real mplex decoder under the chunking vs reference decoder: same frames, mirrored role, error exactly where the reference fails, no frame after an error, no panic); non-trivial = at least one frame decoded or the reference rejects the input",
+};
+pub const PROST_CODEC: FuzzTarget = FuzzTarget {
+    name: "prost_codec",
+    entry: prost_codec,
+    about: "input = [limit index][4 chunking bytes][bytes]; oracle = C57 arbitrary-bytes oracle (prost_codec::Codec with the selected limit under the chunking vs reference framer: same messages, error exactly where the reference fails, no panic); non-trivial = at least one message decoded or the reference rejects the input",
+};
 
-fn report(sig: String, detail: Value) {
-    if sig == "bound" || known().contains(&sig) {
-        return;
+/// libFuzzer stage budget (thorough tier): fixed -runs per job, independent jobs with seeds s, s+1, ...
+pub const FUZZ_JOBS: u32 = 8;
+/// measured (ASan build, one core): ms_listener ~1100, ms_dialer ~450, mplex_codec ~670, prost_codec ~2100 exec/s
+pub const MS_LISTENER_RUNS_PER_JOB: u64 = 200_000;
+pub const MS_DIALER_RUNS_PER_JOB: u64 = 100_000;
+pub const MPLEX_RUNS_PER_JOB: u64 = 150_000;
+pub const PROST_RUNS_PER_JOB: u64 = 400_000;
+
+fn beyond_header(end: &End, rejected: usize) -> bool {
+    match end {
+        End::IoEof | End::IoOther(_) => false,
+        End::Failed => rejected > 0,
+        _ => true,
     }
-    panic!("VIOLATION {sig} {detail}");
 }
 
 /// control bytes -> read script (default chunk + up to 7 scripted steps)
@@ -45,28 +69,25 @@ fn chunking(ctl: &[u8]) -> Chunking {
 }
 
 /// layout: [proto bitmask][script: 4 bytes][stream...]
-pub fn ms_listener(data: &[u8]) {
+pub fn ms_listener(data: &[u8]) -> FuzzVerdict {
     if data.len() < 5 {
-        return;
+        return Ok(false);
     }
     let protos: Vec<String> = (0..8u8).filter(|i| data[0] & (1 << i) != 0).map(name).collect();
     let sc = script(&data[1..5]);
     let inp = &data[5..];
-    if let Err((s, d)) = c15::bb_oracle(Role::Listener, &protos, inp, &sc) {
-        report(s, d);
-    }
+    let (obs, rejected) = c15::bb_oracle(Role::Listener, &protos, inp, &sc)?;
     // every well-delimited frame body also goes through the message decoder oracle
     if let crate::msref::Next::Frame { start, end } = crate::msref::next_frame(inp, 0) {
-        if let Err((s, d)) = c15::decode_oracle(&inp[start..end]) {
-            report(s, d);
-        }
+        let _ = c15::decode_oracle(&inp[start..end])?;
     }
+    Ok(beyond_header(&obs.end, rejected))
 }
 
 /// layout: [bit7: lazy, bits0..5: proto bitmask (valid names)][order byte][script: 4 bytes][stream...]
-pub fn ms_dialer(data: &[u8]) {
+pub fn ms_dialer(data: &[u8]) -> FuzzVerdict {
     if data.len() < 6 {
-        return;
+        return Ok(false);
     }
     let mut protos: Vec<String> = (0..6u8).filter(|i| data[0] & (1 << i) != 0).map(name).collect();
     if data[1] & 1 == 1 {
@@ -75,33 +96,28 @@ pub fn ms_dialer(data: &[u8]) {
     let role = if data[0] & 0x80 != 0 { Role::DialerLazy } else { Role::DialerV1 };
     let sc = script(&data[2..6]);
     let inp = &data[6..];
-    if let Err((s, d)) = c15::bb_oracle(role, &protos, inp, &sc) {
-        report(s, d);
-    }
-    if let Err((s, d)) = c15::decode_oracle(inp) {
-        report(s, d);
-    }
+    let (obs, rejected) = c15::bb_oracle(role, &protos, inp, &sc)?;
+    let _ = c15::decode_oracle(inp)?;
+    Ok(beyond_header(&obs.end, rejected))
 }
 
 /// layout: [chunking: 4 bytes][bytes...]
-pub fn mplex_codec(data: &[u8]) {
+pub fn mplex_codec(data: &[u8]) -> FuzzVerdict {
     if data.len() < 4 {
-        return;
+        return Ok(false);
     }
-    if let Err((s, d)) = c25::arb_oracle(&data[4..], &chunking(&data[..4])) {
-        report(s, d);
-    }
+    let (n, term) = c25::arb_oracle(&data[4..], &chunking(&data[..4]))?;
+    Ok(n > 0 || matches!(term, c25::Term::Error(_)))
 }
 
 /// layout: [limit index][chunking: 4 bytes][bytes...]
-pub fn prost_codec(data: &[u8]) {
+pub fn prost_codec(data: &[u8]) -> FuzzVerdict {
     if data.len() < 5 {
-        return;
+        return Ok(false);
     }
     let max = c57::MAXES[data[0] as usize % c57::MAXES.len()];
-    if let Err((s, d)) = c57::arb_oracle(max, &data[5..], &chunking(&data[1..5])) {
-        report(s, d);
-    }
+    let (n, term) = c57::arb_oracle(max, &data[5..], &chunking(&data[1..5]))?;
+    Ok(n > 0 || matches!(term, c57::Term::Error(_)))
 }
 
 /// Golden seeds: valid conversations / encodings (and a few single-violation ones) per target.
